@@ -14,11 +14,12 @@
   shorter than the batch), remove (any row: the swap-remove location fix-up; stale identifiers),
   clear (for *every* order in which the table iterator may visit the archetypes), Entry::add
   (overwrite and shape change), Entry::remove, writes through `&mut` views, reserve,
-  shrink_to_fit.  NOT YET PROVED in Lean (held by the correspondence check and by `invB` evaluated
-  on every real dump): clone, clone_from, deserialization — the part missing from the full
-  statement.
+  shrink_to_fit — and (`C13_inv_reachable_partial`) every world reachable by additionally cloning
+  reachable worlds and by deserializing *arbitrary* token streams.  NOT YET PROVED in Lean (held
+  by the correspondence check and by `invB` evaluated on every real dump): `clone_from` — the part
+  missing from the full statement.
 -/
-import BroodModel.Lemmas.Ops
+import BroodModel.Lemmas.DeInv
 
 namespace Brood
 
@@ -33,6 +34,25 @@ theorem C13_step {w w' : World} (hi : Inv w) {op : Op} (e : step w op = .ok w') 
 theorem C13_inv_partial (n : Nat) (res : List Val) (ops : List Op) {w : World}
     (e : run (World.init n res) ops = .ok w) : Inv w :=
   run_inv (inv_init n res) ops e
+
+/-- Worlds reachable through the public API: from the empty world by single-world operations, by
+cloning a reachable world, or as the result of deserializing any token stream whatsoever. -/
+inductive Reachable : World → Prop
+  | init (n : Nat) (res : List Val) : Reachable (World.init n res)
+  | step {w w' : World} (op : Op) : Reachable w → step w op = .ok w' → Reachable w'
+  | clone {w w' : World} (e next : Nat) : Reachable w → w.clone e next = .ok w' → Reachable w'
+  | deserialize {k : Kinds} {hr : Bool} {n nres e next : Nat} {toks : List Serde.Tok} {w : World} :
+      Serde.deserialize k hr n nres e next toks = .ok w → Reachable w
+
+/-- **Every reachable world satisfies the invariant** (all operations except `clone_from`). -/
+theorem C13_inv_reachable_partial {w : World} (h : Reachable w) : Inv w := by
+  induction h with
+  | init n res => exact inv_init n res
+  | step op _ e ih => exact step_inv ih e
+  | clone e next _ hc ih =>
+    obtain ⟨w'', h1, h2, _⟩ := clone_spec ih e next
+    rw [h1] at hc; cases hc; exact h2
+  | deserialize hd => exact Serde.deserialize_inv hd
 
 /-- Identifiers accepted = identifiers stored: a live identifier resolves to a row holding it… -/
 theorem C13_accepted_is_stored {w : World} (hi : Inv w) {id : Ident} {l : Loc}
@@ -79,6 +99,7 @@ end Brood
 #print axioms Brood.C13_inv_init
 #print axioms Brood.C13_step
 #print axioms Brood.C13_inv_partial
+#print axioms Brood.C13_inv_reachable_partial
 #print axioms Brood.C13_accepted_is_stored
 #print axioms Brood.C13_stored_is_accepted
 #print axioms Brood.C13_one_row_per_identifier
